@@ -188,8 +188,16 @@ def concrete_run(job):
     return res
 
 # ------------------------------------------------------------------ solving (main process, threads manage subprocesses)
+def _with_limit(cmd, timeout):
+    """give the solver its own hard time limit as well, so that an orphaned solver (driver killed) cannot run on"""
+    t = int(timeout) + 5
+    if cmd[0] == 'cvc5': return cmd + ['--tlimit=%d' % (t * 1000)]
+    if cmd[0].startswith('z3'): return [cmd[0], '-T:%d' % t] + cmd[1:]
+    return cmd
+
 def _run_one(cmd, smt, timeout):
     t0 = time.time()
+    cmd = _with_limit(cmd, timeout)
     try:
         p = subprocess.Popen(cmd, stdin=subprocess.PIPE, stdout=subprocess.PIPE, stderr=subprocess.PIPE, text=True, start_new_session=True)
     except Exception as e:
@@ -214,7 +222,7 @@ def _race(tasks, timeout):
     t0 = time.time()
     for name, cmd, smt in tasks:
         try:
-            p = subprocess.Popen(cmd, stdin=subprocess.PIPE, stdout=subprocess.PIPE, stderr=subprocess.PIPE, text=True, start_new_session=True)
+            p = subprocess.Popen(_with_limit(cmd, timeout), stdin=subprocess.PIPE, stdout=subprocess.PIPE, stderr=subprocess.PIPE, text=True, start_new_session=True)
             p.stdin.write(smt); p.stdin.close()
             procs[name] = p
         except Exception:
